@@ -25,6 +25,7 @@ import re
 import struct
 from collections import deque
 
+import gen_c04
 from vlib import Ctx, InfraError
 
 PROPERTY = "C04"
@@ -39,6 +40,9 @@ RULE = ("scenarios per round: plain circuits with 1/2/3 hops (two circuits from 
         "phase, kind); distinct = distinct key (scenario kind, hops, op kind, parameters) WITHOUT the round, so repeated "
         "rounds add cases but not distinct ones; non-trivial = a cell was originated or injected (all of them are)")
 TRUSTED_BASE = [
+    "tools/gen_c04.py: AST translation of the guards, directions, table order and constants of send_cell / process_cell / relay_cell / "
+    "outgoing_crypto / incoming_crypto / encrypt_cell / decrypt_cell / on_data (subset documented in the file) into Ipv8/C04/GenCrypto.lean; "
+    "Model.lean is built on these definitions",
     "ipv8_rust_tunnels (Rust): ChaCha20-Poly1305 SessionKeys.encrypt_str/decrypt_str, X25519, HKDF — modelled as an abstract AEAD "
     "whose laws (correctness, ciphertext integrity, key/direction separation, constant positive overhead) are hypotheses of every theorem",
     "hand-written model of crypto.py encrypt_cell/decrypt_cell/outgoing_crypto/incoming_crypto/relay_cell/process_cell/send_cell "
@@ -54,6 +58,13 @@ ASSUMPTIONS = [
     "circuit ids on the two sides of a relay differ; hops of a ready circuit have keys",
     "replay of a genuine cell is outside the statement (the protocol has no replay protection); the relay_early header flag is unauthenticated",
 ]
+
+def generate(ctx: Ctx):
+    """translator: the decision logic of the cell path (guards, directions, table order, constants) -> Ipv8/C04/GenCrypto.lean"""
+    src, info = gen_c04.translate()
+    ctx.extra["translated"] = info
+    return [("Ipv8/C04/GenCrypto.lean", src)]
+
 
 SIZES = [0, 1, 2, 15, 16, 17, 23, 24, 25, 64, 100, 279, 512, 1000, 1400, 1472, 1500]
 ZERO = ("0.0.0.0", 0)
